@@ -321,6 +321,9 @@ func GenGrammarMetric(t *rapid.T, depth int, allowYear bool) *gen.Metric {
 		}
 		if m.Op == "topk" || m.Op == "bottomk" {
 			m.HasK, m.K = true, rapid.IntRange(1, 20).Draw(t, "gm-k")
+			if rapid.IntRange(0, 7).Draw(t, "gm-k-huge") == 0 {
+				m.K = rapid.SampledFrom([]int{1 << 31, 1 << 40, 1 << 58, 1<<62 + 1, 1<<63 - 1}).Draw(t, "gm-k-hugeval")
+			}
 		}
 		if m.Op != "sort" && m.Op != "sort_desc" && rapid.Bool().Draw(t, "gm-grouping") {
 			m.Grouping = &gen.Grouping{Without: rapid.Bool().Draw(t, "gm-without"), Labels: genIdents(t, "gm-glabels", 0, 3)}
